@@ -9,37 +9,45 @@ VARIABLE hist
 
 mcvars == <<vars, hist>>
 
-R(id, n, ts, kind, forge) == [id |-> id, node |-> n, ts |-> ts, kind |-> kind, forge |-> forge]
+R(id, n, ts, kind, k, forge) == [id |-> id, node |-> n, ts |-> ts, kind |-> kind, addrs |-> k, forge |-> forge]
 
-\* 4 genuine records for n1 with distinct timestamps (both kinds) + forged ones with the HIGHEST
-\* timestamps (so a book that skipped a check would prefer them) + 2 records for a second node
+\* 4 genuine records for n1 with distinct timestamps (both kinds, one of them the "not reachable"
+\* announcement without addresses) + forged ones with the HIGHEST timestamps (so a book that
+\* skipped a check would prefer them), one of them WITHOUT addresses + 2 records for a second node
 PoolSmall == {
-    R("a1", "n1", 1, "auth", "none"),
-    R("t2", "n1", 2, "trusted", "none"),
-    R("a3", "n1", 3, "auth", "none"),
-    R("a4", "n1", 4, "auth", "none"),
-    R("f5", "n1", 5, "auth", "wrong_signer"),
-    R("f6", "n1", 6, "trusted", "id_mismatch"),
-    R("b1", "n2", 1, "auth", "none"),
-    R("b2", "n2", 2, "auth", "tampered_ts") }
+    R("a1", "n1", 1, "auth", 1, "none"),
+    R("t2", "n1", 2, "trusted", 1, "none"),
+    R("a3", "n1", 3, "auth", 0, "none"),
+    R("a4", "n1", 4, "auth", 1, "none"),
+    R("f5", "n1", 5, "auth", 0, "wrong_signer"),
+    R("f6", "n1", 6, "trusted", 1, "id_mismatch"),
+    R("b1", "n2", 1, "auth", 1, "none"),
+    R("b2", "n2", 2, "auth", 0, "tampered_ts") }
 
-\* all forgery classes, equal timestamps included
+\* every forgery class with 0 and with 1 address (where the class allows it), equal timestamps,
+\* genuine trusted info without addresses
 PoolWide == PoolSmall \cup {
-    R("f7", "n1", 7, "auth", "tampered_addr"),
-    R("f3", "n1", 3, "auth", "tampered_ts"),
-    R("a3x", "n1", 3, "trusted", "none"),
-    R("b3", "n2", 3, "trusted", "none") }
+    R("f7", "n1", 7, "auth", 1, "addr_changed"),
+    R("f8", "n1", 8, "auth", 0, "addr_removed"),
+    R("f9", "n1", 9, "auth", 1, "addr_added"),
+    R("g5", "n1", 5, "auth", 1, "wrong_signer"),
+    R("g6", "n1", 6, "auth", 0, "bad_sig"),
+    R("g7", "n1", 7, "auth", 1, "bad_sig"),
+    R("f3", "n1", 3, "auth", 1, "tampered_ts"),
+    R("a3x", "n1", 3, "trusted", 0, "none"),
+    R("b3", "n2", 3, "trusted", 1, "none"),
+    R("b4", "n2", 4, "auth", 0, "bad_sig") }
 
 NodesSmall == {"n1", "n2"}
 
 \* export pools
-PoolGen == PoolSmall \ {R("b2", "n2", 2, "auth", "tampered_ts")}       \* 7 records: 5040 orders
+PoolGen == PoolSmall \ {R("b2", "n2", 2, "auth", 0, "tampered_ts")}      \* 7 records: 5040 orders
 PoolOverwrite == {
-    R("a1", "n1", 1, "auth", "none"),
-    R("t2", "n1", 2, "trusted", "none"),
-    R("a3", "n1", 3, "auth", "none"),
-    R("f5", "n1", 5, "auth", "wrong_signer"),
-    R("f6", "n1", 6, "trusted", "id_mismatch") }
+    R("a1", "n1", 1, "auth", 1, "none"),
+    R("t2", "n1", 2, "trusted", 0, "none"),
+    R("a3", "n1", 3, "auth", 0, "none"),
+    R("f5", "n1", 5, "auth", 0, "wrong_signer"),
+    R("f6", "n1", 6, "trusted", 1, "id_mismatch") }
 NodesOne == {"n1"}
 PoolN1 == {r \in PoolSmall : r.node = "n1"}                          \* 6 records: 720 orders
 
